@@ -78,15 +78,15 @@ PROPS = {
             'digests': pa(PARSER_LADDER + PARSER_PRIM + ['Parser.IfStatement', 'Parser.statement']), 'digest_groups': ['parserDigests'],
             'campaign': F.c01,
             'partial': ['"adding parentheses never changes what a program prints" is proved at tree level (Grouping is transparent to the evaluator) and tested end to end']},
-    'C02': {'ties': ['tie_tokenTypes'], 'digests': it(*OPS) + ev('Binary', 'Unary') + it('toNumber', 'toInt64') + ['utilsDigests:ConvertBanglaDigitsToASCII'], 'campaign': E.c02,
+    'C02': {'reexec': True, 'ties': ['tie_tokenTypes'], 'digests': it(*OPS) + ev('Binary', 'Unary') + it('toNumber', 'toInt64') + ['utilsDigests:ConvertBanglaDigitsToASCII'], 'campaign': E.c02,
             'partial': ['IEEE-754 exactness rests on the definitional F64 model tied to the host by correspondence', PLATFORM_NOTE]},
-    'C03': {'reexec': True, 'scale': True, 'volume': ['scopes', 'calls'], 'ties': [], 'digests': en(ENV_ALL) + ev('BlockStmt', 'ForStmt', 'VarStmt', 'VarListStmt', 'AssignmentStmt', 'Identifier', 'FunctionStmt') +
+    'C03': {'twins': True, 'reexec': True, 'scale': True, 'volume': ['scopes', 'calls'], 'ties': [], 'digests': en(ENV_ALL) + ev('BlockStmt', 'ForStmt', 'VarStmt', 'VarListStmt', 'AssignmentStmt', 'Identifier', 'FunctionStmt') +
             it('Function.Call', 'Interpreter.Interpret', 'NewInterpreter'), 'digest_groups': ['environmentDigests'], 'campaign': E.c03},
-    'C04': {'reexec': True, 'scale': True, 'volume': ['calls', 'scopes'], 'ties': [], 'digests': it('Function.Call', 'Function.Arity', 'NewFunction') + en(ENV_ALL) +
+    'C04': {'twins': True, 'reexec': True, 'scale': True, 'volume': ['calls', 'scopes'], 'ties': [], 'digests': it('Function.Call', 'Function.Arity', 'NewFunction') + en(ENV_ALL) +
             ev('Call', 'FunctionStmt', 'Return', 'While', 'ForStmt', 'IfStmt', 'BlockStmt'), 'campaign': E.c04},
     'C05': {'reexec': True, 'scale': True, 'volume': ['loops'], 'ties': [], 'digests': ev('IfStmt', 'While', 'ForStmt', 'BreakStmt', 'ContinueStmt', 'BlockStmt') + it('Interpreter.Interpret', 'isTruthy') + pa(['Parser.forStatement']),
             'campaign': E.c05},
-    'C06': {'ties': ['tie_exits'], 'digests': ['evalCases:' + n for n in ALL_EVAL] + it('Function.Call', 'Interpreter.Interpret', 'evaluateBinary', 'evaluateUnary') +
+    'C06': {'twins': True, 'reexec': True, 'ties': ['tie_exits'], 'digests': ['evalCases:' + n for n in ALL_EVAL] + it('Function.Call', 'Interpreter.Interpret', 'evaluateBinary', 'evaluateUnary') +
             ['utilsDigests:RuntimeError', 'mainDigests:runFile', 'mainDigests:run'] + en(['Environment.Assign']), 'digest_groups': ['evalCases'], 'campaign': E.c06},
     'C07': {'reexec': True, 'scale': True, 'volume': ['calls', 'scopes', 'loops', 'data'], 'ties': ['tie_panicSites'], 'digests': it(*OPS) + nat(*NATIVES) + it('Function.Call', 'sortedKeys', 'stringify') + ['evalCases:' + n for n in ALL_EVAL],
             'digest_groups': ['interpreterDigests', 'evalCases'], 'campaign': E.c07,
@@ -101,14 +101,14 @@ PROPS = {
     'C10': {'ties': ['tie_digitRanges', 'tie_digitMap'], 'digests': lx(['Scanner.number', 'isDigit', 'Scanner.peekNext', 'Scanner.AddToken']) + ['utilsDigests:ConvertBanglaDigitsToASCII'] + it('toNumber', 'toInt64'),
             'campaign': F.c10, 'partial': ['"nearest double" rests on the definitional F64.ofRat tied to strconv.ParseFloat by correspondence']},
     'C11': {'reexec': True, 'scale': True, 'ties': ['tie_natives', 'tie_arities'], 'digests': nat('Len', 'Append', 'Remove') + ev('ArrayLiteral', 'ArrayAccess', 'ArrayAssignment') + it('toInt64', 'isEqual'), 'campaign': E.c11},
-    'C12': {'reexec': True, 'scale': True, 'volume': ['data'], 'ties': ['tie_natives', 'tie_arities'], 'digests': nat('Delete', 'Keys', 'Values') + it('sortedKeys') + ev('ObjectLiteral', 'PropertyAccess', 'PropertyAssignment') + pa(['Parser.objectLiteral']), 'campaign': E.c12},
+    'C12': {'twins': True, 'reexec': True, 'scale': True, 'volume': ['data'], 'ties': ['tie_natives', 'tie_arities'], 'digests': nat('Delete', 'Keys', 'Values') + it('sortedKeys') + ev('ObjectLiteral', 'PropertyAccess', 'PropertyAssignment') + pa(['Parser.objectLiteral']), 'campaign': E.c12},
     'C13': {'reexec': True, 'scale': True, 'volume': ['data'], 'ties': ['tie_rangeMap', 'tie_nondet'], 'digests': it('sortedKeys', 'stringify') + nat('Keys', 'Values') + ev('ObjectLiteral') + pa(['Parser.objectLiteral']), 'campaign': E.c13,
             'partial': ['that the Go runtime randomises only map iteration (and fmt sorts map keys) is trusted knowledge of the runtime']},
     'C14': {'reexec': True, 'scale': True, 'ties': [], 'digests': ev('Binary', 'Unary', 'Logical', 'Call', 'ArrayLiteral', 'ObjectLiteral', 'ArrayAccess', 'ArrayAssignment', 'PropertyAssignment', 'PropertyAccess', 'AssignmentStmt', 'Grouping', 'IfStmt', 'While', 'ForStmt') + it('isTruthy'),
             'campaign': E.c14},
-    'C15': {'scale': True, 'ties': [], 'digests': ev('PrintStatement', 'ExpressionStatement') + it('stringify', 'stringifyOperand', 'handleAddition', 'Function.String'), 'campaign': E.c15,
+    'C15': {'reexec': True, 'scale': True, 'ties': [], 'digests': ev('PrintStatement', 'ExpressionStatement') + it('stringify', 'stringifyOperand', 'handleAddition', 'Function.String'), 'campaign': E.c15,
             'partial': ['NFC is x/text\'s (tables extracted, algorithm modelled); shortest-digit minimality is strconv\'s (tied by correspondence)']},
-    'C16': {'ties': [], 'digests': lx(['Scanner.stringLiteral', 'Scanner.AddToken', 'Scanner.number']) + it(*OPS) + it('stringify', 'sortedKeys') + nat(*NATIVES) +
+    'C16': {'reexec': True, 'ties': [], 'digests': lx(['Scanner.stringLiteral', 'Scanner.AddToken', 'Scanner.number']) + it(*OPS) + it('stringify', 'sortedKeys') + nat(*NATIVES) +
             ev('Literal', 'ArrayAccess', 'ArrayAssignment', 'PropertyAccess', 'PropertyAssignment', 'Binary', 'Unary', 'Logical', 'IfStmt', 'While', 'ForStmt', 'Call', 'PrintStatement',
                'ExpressionStatement', 'ArrayLiteral', 'ObjectLiteral', 'VarStmt', 'AssignmentStmt', 'Return', 'Grouping'),
             'digest_groups': ['interpreterDigests', 'evalCases'], 'campaign': E.c16},
